@@ -103,6 +103,7 @@ def run_sizeexp(ctx, spec):
         2 ** 4095 + 1, 2 ** 3071]
   es = [0, 1, 3, 17, 65536, 65537, 65538, 2 ** 32 + 1, 2 ** 16, 2 ** 17 + 1,
         65537 + 2 ** 64, 257]
+  batch_items = []
   for i in range(spec['n']):
     n = ns[i] if i < len(ns) else rng.choice(
         [rng.odd(rng.randint(64, 4100)), rng.odd(rng.choice(
@@ -113,6 +114,8 @@ def run_sizeexp(ctx, spec):
     if not ctx.want('k%d' % i):
       continue
     key = gen.rsa_key(n, e, pad=pad)
+    if len(batch_items) < 40:
+      batch_items.append((n, e, pad))
     cs.Check([key])
     ce.Check([key])
     ctx.distinct('sizeexp', n, e, pad)
@@ -121,6 +124,22 @@ def run_sizeexp(ctx, spec):
             {'n': n, 'pad': pad})
     _expect(ctx, 'CheckExponents', key, e != 65537,
             'e = %d, %d leading zero bytes' % (e, pad), {'e': e, 'pad': pad})
+  # per-key criteria: the same keys in one call, positives first / last
+  for tag, rev in (('positives-first', False), ('positives-last', True)):
+    if not batch_items or not ctx.want('batch/' + tag):
+      continue
+    items = sorted(batch_items, key=lambda t: (t[0].bit_length() >= 2048,
+                                               t[1] == 65537), reverse=rev)
+    keys = [gen.rsa_key(n_, e_, pad=p_) for n_, e_, p_ in items]
+    cs.Check(keys)
+    ce.Check(keys)
+    ctx.count('criteria_in_one_batch', len(keys))
+    for key, (n_, e_, p_) in zip(keys, items):
+      _expect(ctx, 'CheckSizes', key, n_.bit_length() < 2048,
+              'bit length %d in a batch (%s)' % (n_.bit_length(), tag),
+              {'n': n_})
+      _expect(ctx, 'CheckExponents', key, e_ != 65537,
+              'e = %d in a batch (%s)' % (e_, tag), {'e': e_})
   try:
     ctx.sample({'check': 'CheckSizes/CheckExponents', 'n_bits': n.bit_length(),
                 'e': e, 'leading_zero_bytes': pad})
@@ -422,6 +441,7 @@ def run_ec(ctx, spec):
   rng = ctx.rng('ec')
   cvalid, cweak = es.CheckValidECKey(), es.CheckWeakCurve()
   ids = sorted(paranoid_pb2.CurveType.values()) + [20, 99]
+  collected = []
   for cid in ids:
     name = paranoid_pb2.CurveType.Name(cid) if cid < 20 else 'OUT_OF_ENUM'
     known = name in gen.NAMED
@@ -470,6 +490,11 @@ def run_ec(ctx, spec):
         valid = False
         key = gen.ec_key(cid, rng.bits(200), rng.bits(200))
         what = 'curve id %d (%s)' % (cid, name)
+      if i < 4:
+        collected.append((type(key)().FromString(key.SerializeToString()),
+                          valid, known and gen.model_curve(
+                              name).n.bit_length() < 224 if known else None,
+                          what, cid))
       cvalid.Check([key])
       cweak.Check([key])
       ctx.distinct('ec', cid, i)
@@ -489,6 +514,30 @@ def run_ec(ctx, spec):
       elif went:
         ctx.violation('CheckWeakCurve-unknown-curve', 'entry %r for %s' %
                       (went, name), {'curve': cid})
+  # the criteria are per key: the same keys once more in one call, keys of
+  # weak curves / invalid keys first, then in the opposite order
+  for tag, rev in (('positives-first', False), ('positives-last', True)):
+    if not collected or not ctx.want('batch/' + tag):
+      continue
+    items = sorted(collected, key=lambda t: (not bool(t[2]), t[1]),
+                   reverse=rev)
+    batch = [type(k)().FromString(k.SerializeToString())
+             for k, _, _, _, _ in items]
+    cvalid.Check(batch)
+    cweak.Check(batch)
+    ctx.count('criteria_in_one_batch', len(batch))
+    for key, (_, valid, wantw, what, cid) in zip(batch, items):
+      ctx.count('evaluations')
+      _expect(ctx, 'CheckValidECKey', key, not valid, what + ' (batch, %s)' %
+              tag, {'curve': cid})
+      went = _entry(key, 'CheckWeakCurve')
+      if wantw is not None and went != wantw:
+        ctx.violation('CheckWeakCurve-wrong/in-batch', 'curve id %d in a batch '
+                      '(%s): flagged=%r, criterion=%r' % (cid, tag, went,
+                                                          wantw), {'curve': cid})
+      elif wantw is None and went:
+        ctx.violation('CheckWeakCurve-unknown-curve', 'entry %r for curve id '
+                      '%d in a batch' % (went, cid), {'curve': cid})
   # subgroup clause on a synthetic cofactor-4 curve swapped into the registry
   if ctx.want('subgroup'):
     slot = paranoid_pb2.CurveType.CURVE_SECT163K1
@@ -537,7 +586,7 @@ def finalize(agg, tier):
               'CheckOpensslDenylist', 'CheckKeypairDenylist',
               'CheckValidECKey', 'CheckWeakCurve'):
     need += ['verdict:%s:pos' % chk, 'verdict:%s:neg' % chk]
-  need += ['subgroup_points', 'x_equals_p_boundary']
+  need += ['subgroup_points', 'x_equals_p_boundary', 'criteria_in_one_batch']
   inc = ['reach counter %s is zero' % k for k in need if not c.get(k)]
   if c.get('covered_seeds_regenerated', 0) != 768 and not agg['violations']:
     inc.append('only %d of 768 covered seeds regenerated' %
